@@ -112,6 +112,20 @@ class Canon:
         tail = None
         if b.get("expr") is not None and not self.is_noise_expr(b["expr"]):
             tail = self.expr(b["expr"])
+        # a run of consecutive `x = <constant>` statements on distinct targets commutes: put it in a fixed order
+        def const_reset(st):
+            if st[0] != "stmt" or not (isinstance(st[1], tuple) and st[1] and st[1][0] == "assign"):
+                return False
+            rhs = st[1][2]
+            return isinstance(rhs, tuple) and rhs and rhs[0] in ("lit", "item")
+        i = 0
+        while i < len(out):
+            j = i
+            while j < len(out) and const_reset(out[j]):
+                j += 1
+            if j - i > 1 and len({repr(x[1][1]) for x in out[i:j]}) == j - i:
+                out[i:j] = sorted(out[i:j], key=repr)
+            i = max(j, i + 1)
         return ("block", tuple(out), tail)
 
     def expr(self, e):
